@@ -473,8 +473,6 @@ Proof. exact whole_cmd1. Qed.
 Print Assumptions C04_whole_cmd1.
 
 (* non-vacuity: instances with every side condition evaluated *)
-Lemma in_gen_keys k : existsb (beq k) gen_keys = true -> In k gen_keys.
-Proof. intros H. apply existsb_exists in H. destruct H as (x & Hx & E). apply beq_eq in E. subst. exact Hx. Qed.
 Ltac vr := vm_compute; reflexivity.
 Example C04_whole_bare_ex :
   mask_password (lit "run now PassWord7 = s3^cret ok") (lit "***") = lit "run now PassWord7 = *** ok" /\
